@@ -158,18 +158,32 @@ def gen_set(seed, n_queries=(6, 10), kinds=KINDS, weights=None, n_refs=None, odd
         big = 2 ** 53 + 1 + 2 * rx.randint(0, 10 ** 6)
         refs[-1] = (big,) + tuple(refs[-1][1:])                    # ... and such a reference id
     queries, truths = [], {}
+    neighbours = []
     nq = rnd.randint(*n_queries)
     for q in range(nq):
         kind = rnd.choices(kinds, weights=weights)[0]
         lab, truth = gen_query(rnd, refs, kind, rx)
         qid = (q + 1) * rnd.choice((1, 1, 3)) + (100 if rnd.random() < 0.2 else 0)
-        if rx.random() < 0.06:
+        if neighbours:
+            qid = neighbours.pop()                                # ... and its two neighbours, which ARE doubles (one of them is what it rounds to)
+        elif rx.random() < 0.06:
             qid = 2 ** 53 + 1 + 2 * rx.randint(0, 10 ** 6)        # a valid int64 molecule id that no double represents
+            neighbours = [qid - 1, qid + 1]
         while qid in truths:
             qid += 1
         tail = rnd.randint(1, 2000)
         queries.append((qid, lab[-1] + truth.pop('tail', tail), lab))
         truths[qid] = truth
+    for _ in range(rx.choice((0, 1, 1, 2))):
+        # tandem duplication: the molecule carries an inner stretch of its reference window twice (A B B C against A B C), with the label noise of real
+        # data: the two passes then align overlapping reference stretches, and the join has to trim
+        t = tandem_query(rx, refs)
+        if t is None:
+            break
+        rid, lab = t
+        qid = max(truths) + 3 if truths else 3
+        queries.append((qid, lab[-1] + rx.randint(1, 500), lab))
+        truths[qid] = dict(kind='tandem', reference=rid, reverse=None)
     if rx.random() < 0.15:
         # a short contig whose labels start behind a long unlabelled head, and a molecule that carries all of its labels plus a few more in front of
         # them (reaching into the head): the molecule's labelled span exceeds the contig's, yet it fits on the contig, and that is where it belongs
@@ -187,6 +201,68 @@ def gen_set(seed, n_queries=(6, 10), kinds=KINDS, weights=None, n_refs=None, odd
         queries.append((qid, lab[-1] + 50, lab))
         truths[qid] = dict(kind='overhang_head', reference=cid, reverse=False)
     return refs, queries, truths
+
+
+def tandem_query(rx, refs):
+    """a molecule that carries an inner stretch of its reference window twice (A B B C against A B C), with the label noise of real data"""
+    usable = [r for r in refs if len(r[2]) >= 30]
+    if not usable:
+        return None
+    rid, _, rpos = rx.choice(usable)
+    k = rx.randint(18, 32)
+    a = rx.randint(0, len(rpos) - k)
+    win = [p - rpos[a] for p in rpos[a:a + k]]
+    b0 = rx.randint(4, k - 10)
+    b1 = b0 + rx.randint(4, min(9, k - b0 - 2))
+    block = win[b0:b1]
+    shift = win[b1] - win[b0]
+    lab = win[:b1] + [p + shift for p in block] + [p + shift for p in win[b1:]]
+    lab = sorted(set(max(0, p + rx.randint(-300, 300)) for p in lab))
+    if rx.random() < 0.5:
+        lab = sorted(lab[-1] - p for p in lab)
+    return rid, [p - lab[0] for p in lab]
+
+
+def gen_tandem_set(seed):
+    """one or two references and ten molecules with a tandem duplication each"""
+    rnd = random.Random(seed)
+    refs = []
+    for i in range(rnd.randint(1, 2)):
+        pos, length = gen_reference(rnd, rnd.randint(60, 120))
+        refs.append((i + 1, length, pos))
+    queries, truths = [], {}
+    for q in range(10):
+        t = tandem_query(rnd, refs)
+        if t is None:
+            continue
+        queries.append((q + 1, t[1][-1] + rnd.randint(1, 500), t[1]))
+        truths[q + 1] = dict(kind='tandem', reference=t[0], reverse=None)
+    return refs, queries, truths
+
+
+def gen_diag_set(seed):
+    """a small set for runs with the (slow) diagnostics option: one reference, an exact copy, a molecule with an insertion (two seeds, the second one
+    further down the reference diagonal), and a molecule longer than the reference (no seeding correlation at all)"""
+    rnd = random.Random(seed)
+    pos, length = gen_reference(rnd, 45)
+    a = rnd.randint(3, 10)
+    exact = [p - pos[a] for p in pos[a:a + 14]]
+    b = rnd.randint(18, 25)
+    win = [p - pos[b] for p in pos[b:b + 16]]
+    ins = win[:8] + [p + rnd.randint(4000, 9000) for p in win[8:]]
+    long_one = sorted(rnd.randint(0, length + 80000) for _ in range(12))
+    long_one = [p - long_one[0] for p in long_one]
+    queries = [(1, exact[-1] + 10, exact), (2, ins[-1] + 10, ins), (3, max(long_one[-1] + 10, length + 50000), long_one)]
+    # a long molecule with an insertion followed by a larger deletion: a chain of three segments whose seed peaks do not ascend along the chain
+    r2, x = [], rnd.randint(1000, 5000)
+    for _ in range(160):
+        r2.append(x)
+        x += 600 + int(rnd.expovariate(1 / 6000.0))
+    i, j, k, m, n = 30, 65, 100, 102, 140
+    lab = [p - r2[i] for p in r2[i:j]] + [p - r2[i] + 4000 for p in r2[j:k]] + [p - r2[i] + 4000 - 7000 for p in r2[m:n]]
+    if all(b > a for a, b in zip(lab, lab[1:])):
+        queries.append((4, lab[-1] + 40, [p + 20 for p in lab]))
+    return [(1, length, pos), (2, x + 1000, r2)], queries, {1: dict(kind='exact'), 2: dict(kind='indel'), 3: dict(kind='degenerate'), 4: dict(kind='indel')}
 
 
 def gen_dense_set(seed):
@@ -279,16 +355,61 @@ class Run:
         self.reference_maps = None
         self.query_maps = None
         self.coordinator = None
+        self.handover_losses = []   # result types whose state changed on the way from a worker to the parent
 
 
 def _ordered_map(f, items, num_cpus=None, disable=None):
-    """in-process stand-in for p_tqdm.p_imap: ordered results; like the real one (multiprocessing.Pool) it rejects a worker count below 1"""
+    """in-process stand-in for p_tqdm.p_imap: ordered results; like the real one (multiprocessing.Pool) it rejects a worker count below 1 and hands
+    every result over as a pickled copy"""
     if num_cpus is not None and num_cpus < 1:
         raise ValueError("Number of processes must be at least 1")
-    return map(f, items)
+    # ... and what a worker returns reaches the parent as a pickled copy (pathos / dill): classes that customise their pickling show here.
+    # The assumed contract of p_imap - "yields f(x0), f(x1), ..." - is monitored: the copy must carry the same state as the worker's result
+    import dill
+
+    def hand_over(x):
+        r = f(x)
+        c = dill.loads(dill.dumps(r))
+        if fingerprint(r) != fingerprint(c):
+            HANDOVER_LOSSES.append(type(r).__name__)
+        return c
+    return (hand_over(x) for x in items)
+
+
+HANDOVER_LOSSES = []
+
+
+def fingerprint(o, depth=0, seen=None):
+    """the observable state of a result object (attribute values, recursively; floats exactly): equal before and after pickling, or the parent does
+    not get what the worker computed"""
+    seen = seen if seen is not None else set()
+    if depth > 12:
+        return '...'
+    if o is None or isinstance(o, (bool, int, float, str, bytes)):
+        return repr(o)
+    if id(o) in seen:
+        return '<cycle>'
+    if isinstance(o, (list, tuple)):
+        seen = seen | {id(o)}
+        return '[' + ','.join(fingerprint(x, depth + 1, seen) for x in o) + ']'
+    if isinstance(o, dict):
+        seen = seen | {id(o)}
+        return '{' + ','.join(f"{k!r}:{fingerprint(v, depth + 1, seen)}" for k, v in sorted(o.items(), key=lambda kv: repr(kv[0]))) + '}'
+    if hasattr(o, 'tolist') and hasattr(o, 'dtype'):
+        return f"nd{o.dtype}{o.tolist()!r}"
+    d = getattr(o, '__dict__', None)
+    if d is None:
+        slots = [n for c in type(o).__mro__ for n in getattr(c, '__slots__', ())]
+        d = {n: getattr(o, n) for n in slots if hasattr(o, n)} if slots else None
+    if d is None:
+        return repr(o)
+    seen = seen | {id(o)}
+    return type(o).__name__ + '{' + ','.join(f"{k}:{fingerprint(v, depth + 1, seen)}" for k, v in sorted(d.items())) + '}'
+
 
 
 OUTPUT_NAME_STYLES = ('out_{mode}.xmap', 'out_{mode}.tsv', 'aln_{mode}')
+PIPE_STYLE = 4        # the query CMAP arrives on standard input through a pipe (-q -): a stream that can be read forwards only
 STDOUT_STYLE = 3      # no -o option: the XMAP goes to standard output (the documented default); used for mode 'best' only - the other modes derive the
 #                       names of their additional files from the name of the output stream
 
@@ -307,10 +428,14 @@ def run_program(workdir, mode, extra=(), capture=True, cpus=None, style=0):
     import src.workflow_coordinator as wc
     if cpus is None:
         wc.p_imap = _ordered_map
+    del HANDOVER_LOSSES[:]
     res = Run()
     to_stdout = (style == STDOUT_STYLE and mode == 'best')
     if style == STDOUT_STYLE:
         style = 0
+    from_pipe = (style == PIPE_STYLE)
+    if from_pipe:
+        style = 1
     out = os.path.join(workdir, OUTPUT_NAME_STYLES[style % 3].format(mode=mode))
 
     class Catcher(Extension):
@@ -320,27 +445,62 @@ def run_program(workdir, mode, extra=(), capture=True, cpus=None, style=0):
             for m in message.messages:
                 res.candidates.setdefault(m.query.moleculeId, []).append((m.alignment, m.query, m.reference, m.correlation))
 
-    argv = ['-r', os.path.join(workdir, 'r.cmap'), '-q', os.path.join(workdir, 'q.cmap')] + ([] if to_stdout else ['-o', out]) + ['-pb', '-oM', mode]
+    argv = ['-r', os.path.join(workdir, 'r.cmap'), '-q', '-' if from_pipe else os.path.join(workdir, 'q.cmap')] + ([] if to_stdout else ['-o', out]) + ['-pb', '-oM', mode]
     if cpus is not None or style % 3 != 2:
         argv += ['-c', str(cpus if cpus is not None else 1)]
     argv += [str(x) for x in extra]
-    import contextlib
     import sys
-    stream = open(out, 'w') if to_stdout else None          # stands for the process's standard output (a real file object: it has a name and an encoding)
+    saved_fd = None
+    if to_stdout:
+        # what the shell does for `coma ... > file`: file descriptor 1 itself is pointed at the file, so every writer of the process's standard output
+        # (whenever and wherever it took hold of sys.stdout) ends up there
+        sys.stdout.flush()
+        saved_fd = os.dup(1)
+        fd = os.open(out, os.O_WRONLY | os.O_CREAT | os.O_TRUNC, 0o644)
+        os.dup2(fd, 1)
+        os.close(fd)
+    saved_stdin, feeder = None, None
+    if from_pipe:
+        import threading
+        rfd, wfd = os.pipe()
+        with open(os.path.join(workdir, 'q.cmap'), 'rb') as qf:
+            data = qf.read()
+
+        def feed():
+            with os.fdopen(wfd, 'wb') as w:
+                w.write(data)
+        feeder = threading.Thread(target=feed, daemon=True)
+        feeder.start()
+        saved_stdin = sys.stdin
+        import io
+
+        class _Stdin(io.TextIOWrapper):
+            name = '<stdin>'                # as the interpreter names its standard input
+        sys.stdin = _Stdin(io.FileIO(rfd, 'r'))
     try:
-        with (contextlib.redirect_stdout(stream) if to_stdout else contextlib.nullcontext()):
-            args = Args.parse(argv)
-            res.args = args
-            prog = Program(args, [Catcher()] if capture else None)
-            res.reference_maps, res.query_maps = prog.referenceMaps, prog.queryMaps
-            res.coordinator = prog.workflowCoordinator
-            result = prog.run()
-            res.rows = result.rows
+        args = Args.parse(argv)
+        res.args = args
+        prog = Program(args, [Catcher()] if capture else None)
+        res.reference_maps, res.query_maps = prog.referenceMaps, prog.queryMaps
+        res.coordinator = prog.workflowCoordinator
+        result = prog.run()
+        res.rows = result.rows
     except BaseException as e:          # SystemExit from argparse included
         res.error = f"{type(e).__name__}: {e}\n" + traceback.format_exc()[-1500:]
     finally:
-        if stream is not None and not stream.closed:
-            stream.close()
+        if saved_stdin is not None:
+            try:
+                sys.stdin.close()
+            except Exception:
+                pass
+            sys.stdin = saved_stdin
+        if saved_fd is not None:
+            try:
+                sys.stdout.flush()
+            finally:
+                os.dup2(saved_fd, 1)
+                os.close(saved_fd)
+    res.handover_losses = list(HANDOVER_LOSSES)
     base, ext = os.path.splitext(out)
     for sfx in ('', '_1', '_2'):
         p = f"{base}{sfx}{ext}"
